@@ -16,11 +16,12 @@ What is proved here (all by direct computation on the model, no induction over t
   well-typed state and a holder with the slot's declared type, it either stores (the state stays well-typed, the new
   value is `implicitCast h.ty rv` and has type `h.ty`) or reports `typeMismatch` / `constAssign` and changes nothing.
 
-NOT proved: that `WT` is preserved by every statement (`C05_store_typed_statement` below). That needs one more
-induction over the 25 functions with *value* postconditions (the generic `Ens` only speaks about states): the holder
-returned by `resolveRef` is typed, `defaultVal t ty` returns a value of type `ty`, `bindParams` returns typed slots, a
-BYREF slot's type is its target's type, `Codec.load` keeps the type of the value it fills. The lemmas here are its
-leaves for the assignment channel.
+The full statement — every statement, every program and every REPL session preserves `WT` — is proved in
+`Properties/C05Store.lean` (`C05_inv_preserved`, `C05_store_typed`, `C05_store_typed_program`, `C05_store_typed_repl`) by one
+more induction over the 25 functions with value postconditions (`PseudoProofs/TypedInv*.lean`). `C05_store_typed_statement`
+below, quantified over *arbitrary* states, is false for an uninteresting reason (two live activations sharing an id, which no
+run produces: `C05_store_typed_statement_false`); the proved invariant `TypedInv.Inv` adds exactly that well-formedness and
+"a BYREF alias slot has its target's declared type". The lemmas here are its leaves for the assignment channel.
 -/
 namespace Pseudo
 namespace C05
@@ -250,7 +251,7 @@ theorem C05_execAssign_tail (f : Nat) (t : Tok) (r : Ref) (rhs : Expr) :
   rw [execAssign.eq_def]
   rfl
 
-/-- the full statement (not proved here, see the header) -/
+/-- the statement over arbitrary states (refuted for ill-formed states, proved for reachable ones in `C05Store.lean`) -/
 def C05_store_typed_statement : Prop :=
   ∀ (fuel : Nat) (s : Stmt) (σ : St), WT σ → WT ((execStmt fuel s).run.run σ).2
 
